@@ -703,6 +703,9 @@ fn check_world<W: World + std::fmt::Debug + WorldInventory>(
     samples: &mut Vec<serde_json::Value>,
 ) {
     let coll = W::collection();
+    // every other text is looked up in a clone of the collection (what a cloned runner or
+    // `Cucumber` holds)
+    let cloned = coll.clone();
     for (ti, text) in texts.iter().enumerate() {
         if !a.mine(ti) {
             continue;
@@ -715,7 +718,7 @@ fn check_world<W: World + std::fmt::Debug + WorldInventory>(
                 .filter_map(|e| (e.matcher)(text).map(|x| (e, x)))
                 .collect();
             let st = step(kw, text);
-            let got = coll.find(&st);
+            let got = if ti % 2 == 1 { cloned.find(&st) } else { coll.find(&st) };
             let mut bad: Option<String> = None;
             match (want.len(), got) {
                 (0, Ok(None)) => {}
@@ -997,6 +1000,12 @@ impl cucumber::Writer<ZooA> for ZRec {
 }
 
 impl cucumber::writer::Normalized for ZRec {}
+impl cucumber::writer::NonTransforming for ZRec {}
+impl cucumber::writer::Arbitrary<ZooA, String> for ZRec {
+    async fn write(&mut self, val: String) {
+        self.0.push(format!("write: {}", val.lines().next().unwrap_or("")));
+    }
+}
 
 thread_local! {
     static AFTER_REASONS: RefCell<Vec<String>> = const { RefCell::new(Vec::new()) };
@@ -1035,6 +1044,7 @@ pub fn c10_macro_errors() -> Vec<(String, String)> {
     }
     text += "  Scenario: fine\n    Then result ok\n    Then alias ok\n";
     let feat = gherkin::Feature::parse(&text, gherkin::GherkinEnv::default()).expect("zoo feature");
+    let feat_again = feat.clone();
     AFTER_REASONS.with(|r| r.borrow_mut().clear());
     let runner = cucumber::runner::Basic::<ZooA>::default()
         .max_concurrent_scenarios(Some(1))
@@ -1107,6 +1117,51 @@ pub fn c10_macro_errors() -> Vec<(String, String)> {
     }
     if lines.last().map(String::as_str) != Some("run finished") {
         out.push(("run-unfinished".into(), format!("the run did not end with run-Finished: last event {:?}", lines.last())));
+    }
+    // "after the run completes the panic hook that was installed before it is in place again":
+    // also for a failed run driven through `run_and_exit()`, which ends in a panic of its own
+    {
+        use cucumber::WriterExt as _;
+        use std::sync::atomic::{AtomicUsize, Ordering};
+        static HITS: AtomicUsize = AtomicUsize::new(0);
+        let prev = std::panic::take_hook();
+        std::panic::set_hook(Box::new(|_| {
+            HITS.fetch_add(1, Ordering::SeqCst);
+        }));
+        let runner = cucumber::runner::Basic::<ZooA>::default()
+            .max_concurrent_scenarios(Some(1))
+            .steps(ZooA::collection());
+        let res = std::panic::catch_unwind(AssertUnwindSafe(|| {
+            futures::executor::block_on(
+                cucumber::Cucumber::<ZooA, _, (), _, _, cucumber::cli::Empty>::custom(
+                    ZParser(vec![feat_again]),
+                    runner,
+                    ZRec::default().summarized(),
+                )
+                .with_cli(cucumber::cli::Opts::<cucumber::cli::Empty, cucumber::runner::basic::Cli, cucumber::cli::Empty, cucumber::cli::Empty> {
+                    re_filter: None,
+                    tags_filter: None,
+                    parser: cucumber::cli::Empty,
+                    runner: cucumber::runner::basic::Cli::default(),
+                    writer: cucumber::cli::Empty,
+                    custom: cucumber::cli::Empty,
+                })
+                .run_and_exit(()),
+            )
+        }));
+        let before = HITS.load(Ordering::SeqCst);
+        let _ = std::panic::catch_unwind(|| std::panic::panic_any("probe"));
+        let after = HITS.load(Ordering::SeqCst);
+        std::panic::set_hook(prev);
+        if res.is_ok() {
+            out.push(("exit-verdict".into(), "run_and_exit() returned normally although steps failed".into()));
+        }
+        if after != before + 1 {
+            out.push((
+                "hook-not-restored-after-exit".into(),
+                format!("after a failed run through run_and_exit() a panic did not reach the panic hook that was installed before the run (hook invocations {before} -> {after})"),
+            ));
+        }
     }
     out
 }
